@@ -79,7 +79,7 @@ def replay(group, cexs, workdir):
     ov = os.path.join(workdir, "overlay.json")
     json.dump({"Replace": repl}, open(ov, "w"))
     env = dict(ENV, VERIF_REPLAY=",".join(p for p, _ in cexs))
-    r = subprocess.run(["go", "test", "-vet=off", "-count=1", "-overlay", ov, "-run", "^TestVerifReplay$", "-timeout", "300s", "."],
+    r = subprocess.run(["go", "test", "-vet=off", "-count=1", "-overlay", ov, "-run", "^TestVerifReplay$", "-timeout", "90s", "."],
                        cwd=pkgdir, env=env, capture_output=True, text=True)
     out = r.stdout + r.stderr
     res = {}
